@@ -362,4 +362,95 @@ theorem lastWX_none (b : Bucket) (k : Key) : ∀ (l : List WX) (off : Nat),
       rw [ih (off + 1) (fun w hw => h w (by simp [kvOf, hw]))]
       simp [h e (by simp [kvOf])]
 
+/-! ### lists that differ from the one they were copied from -/
+
+theorem set_copy_ne {α : Type} (l : List α) (i j : Nat) (hi : i < l.length) (hj : j < l.length) (h : l[i] ≠ l[j]) :
+    l.set i l[j] ≠ l := by
+  intro he
+  have : (l.set i l[j])[i]'(by simpa using hi) = l[i] := by simp only [he]
+  rw [List.getElem_set_self] at this
+  exact h this.symm
+
+theorem set_swap_ne {α : Type} (l : List α) (i j : Nat) (hi : i < l.length) (hj : j < l.length) (h : l[i] ≠ l[j]) :
+    (l.set i l[j]).set j l[i] ≠ l := by
+  intro he
+  have hij : i ≠ j := fun e => h (by subst e; rfl)
+  have : ((l.set i l[j]).set j l[i])[i]'(by simpa using hi) = l[i] := by simp only [he]
+  rw [List.getElem_set_ne (fun e => hij e.symm), List.getElem_set_self] at this
+  exact h this.symm
+
+/-! ### the reader built from a declared read set depends on the SET of declared keys only -/
+
+theorem sorted_ext : ∀ {l l' : KV}, Sorted l → Sorted l' → (∀ e, e ∈ l ↔ e ∈ l') → l = l' := by
+  intro l
+  induction l with
+  | nil =>
+    intro l' _ _ hm
+    cases l' with
+    | nil => rfl
+    | cons a r => exact absurd ((hm a).mpr (List.mem_cons_self ..)) (by simp)
+  | cons a r ih =>
+    intro l' hs hs' hm
+    cases l' with
+    | nil => exact absurd ((hm a).mp (List.mem_cons_self ..)) (by simp)
+    | cons a' r' =>
+      obtain ⟨h1, h2⟩ := sorted_cons_iff.mp hs
+      obtain ⟨h1', h2'⟩ := sorted_cons_iff.mp hs'
+      have haa : a = a' := by
+        rcases List.mem_cons.mp ((hm a).mp (List.mem_cons_self ..)) with e | hin
+        · exact e
+        · rcases List.mem_cons.mp ((hm a').mpr (List.mem_cons_self ..)) with e | hin'
+          · exact e.symm
+          · have x1 := h1' _ (mem_keys_of_mem hin)
+            have x2 := h1 _ (mem_keys_of_mem hin')
+            omega
+      subst haa
+      congr 1
+      apply ih h2 h2'
+      intro e
+      constructor
+      · intro he
+        rcases List.mem_cons.mp ((hm e).mp (List.mem_cons_of_mem _ he)) with e1 | hin
+        · subst e1
+          have := h1 _ (mem_keys_of_mem he)
+          omega
+        · exact hin
+      · intro he
+        rcases List.mem_cons.mp ((hm e).mpr (List.mem_cons_of_mem _ he)) with e1 | hin
+        · subst e1
+          have := h1' _ (mem_keys_of_mem he)
+          omega
+        · exact hin
+
+theorem rsOf_declared (db : DB) (kin : List REntry) (b : Bucket) (k : Key) (d : VData)
+    (h : find k (rsOf db kin b) = some d) : ∃ v, (b, k, v) ∈ kin := by
+  induction kin with
+  | nil => simp [rsOf, Store.empty, find] at h
+  | cons e rest ih =>
+    simp only [rsOf] at h
+    by_cases hbk : b = e.1 ∧ k = e.2.1
+    · obtain ⟨rfl, rfl⟩ := hbk
+      exact ⟨e.2.2, List.mem_cons_self ..⟩
+    · have := Store.get_put_other (rsOf db rest) e.1 b e.2.1 k (db.cur e.1 e.2.1) hbk
+      simp only [Store.get] at this
+      rw [this] at h
+      obtain ⟨v, hv⟩ := ih h
+      exact ⟨v, List.mem_cons_of_mem _ hv⟩
+
+theorem mem_rsOf (db : DB) (kin : List REntry) (b : Bucket) (k : Key) (d : VData) :
+    (k, d) ∈ rsOf db kin b ↔ (∃ v, (b, k, v) ∈ kin) ∧ d = db.cur b k := by
+  constructor
+  · intro hm
+    have hf := mem_find_of_sorted (rsOf_sorted db kin b) hm
+    exact ⟨rsOf_declared db kin b k d hf, rsOf_faith db kin b k d hf⟩
+  · rintro ⟨hv, rfl⟩
+    exact find_some_mem (rsOf_mem db kin b k hv)
+
+theorem rsOf_congr (db : DB) (kin kin' : List REntry)
+    (h : ∀ b k, (∃ v, (b, k, v) ∈ kin) ↔ (∃ v, (b, k, v) ∈ kin')) : rsOf db kin = rsOf db kin' := by
+  funext b
+  apply sorted_ext (rsOf_sorted db kin b) (rsOf_sorted db kin' b)
+  rintro ⟨k, d⟩
+  rw [mem_rsOf, mem_rsOf, h b k]
+
 end XV.Contract
